@@ -1,3 +1,5 @@
 import Cql.Audit
 import Cql.Props.C13
+import Cql.Props.C13Time
 #audit_namespace Cql.Props.C13
+#audit_namespace Cql.Props.C13Time
